@@ -151,3 +151,14 @@ def register(claim):
                'coverage() / n_examples(); the spec requires exact coverage, credited-once, non-increasing order, sums and counts.',
           note=REX_NOTE + ' Demanded when the object stores the supplied multiset; known finding D16 (sampling keeps the working sample).',
           ref='DESIGN.md section 5, C18')
+    claim('C08',
+          technique='TLA+ DbSession (discover / verify / add one breaking row / verify) on top of ConstraintSem: the operator-level '
+                    'theorems DbClosure and Notices checked by TLC on every grid column with the perturbations the model derives; '
+                    'each (column, perturbation) replayed on a real SQLite database; sessions judged by Trace_DbSession',
+          text='For every column of <= 3/4 cells x SQL type spelling x quoted column name the model lists the single rows that break '
+               'one discovered constraint (below min, above max, shorter, longer, new category, duplicate, extra null, wrong sign); '
+               'each is inserted into a real SQLite table after discover_db_table -> .tdda file, and verify_db_table must report that '
+               'kind as failed (and nothing before the insertion).  Rich text tables (quotes, backslashes, unicode, empty strings, '
+               'all-null, empty table) x rex run as recorded sessions.',
+          note=NOTE_COMMON + ' SQLite only (no other drivers installed).',
+          ref='DESIGN.md section 5, C08')
